@@ -39,7 +39,10 @@ def random_ops(rng, n):
         elif r == 6:
             ops.append({"op": "hb_stop"})
         elif r == 7:
-            ops.append({"op": "write1017", "ms": rng.choice([0, 0, 1, 100, 65535, rng.randrange(65536)])})
+            if len(ops) % 3 == 0:
+                ops.append({"op": "write1017_bad", "ms": rng.choice([0, 50, 200]), "len": rng.choice([1, 4, 4])})
+            else:
+                ops.append({"op": "write1017", "ms": rng.choice([0, 0, 1, 100, 65535, rng.randrange(65536)])})
         elif r in (8, 9):
             ops.append({"op": "nmt", "state": rng.choice([0, 4, 5, 127]), "api": rng.random() < 0.6,
                         "target": rng.choice([None, 0])})
